@@ -11,6 +11,7 @@ from mcx.engine import Layer, run_check
 from py_stringmatching.similarity_measure.jaccard import Jaccard
 from py_stringmatching.tokenizer.qgram_tokenizer import QgramTokenizer
 
+from checks.configx import config_layer
 from checks.filters import make_filter
 
 MAXV = 6
@@ -247,7 +248,8 @@ def layers(tier):
             Layer('presentations', 'checks.c08:w_missing', pjobs,
                   'the %d pairs of tables with <= 2 rows under three further presentations (NaN as missing marker, '
                   'duplicate and string index labels, negative / string keys, extra columns, reversed column order, '
-                  'pandas str columns), whatever VERIF_SEED is' % len(small), min_nontrivial=100, chunksize=1)]
+                  'pandas str columns), whatever VERIF_SEED is' % len(small), min_nontrivial=100, chunksize=1),
+            config_layer(['C08'], quick)]
 
 
 ASSUME = ['None and NaN are both used as missing markers (chosen by the presentation / VERIF_SEED)']
